@@ -70,7 +70,10 @@ META = {
 }
 
 K_ALG = 64.0
-TINY = {"float64": 2.2250738585072014e-308, "float32": 1.1754943508222875e-38}
+TINY = {"float64": 2.2250738585072014e-308, "float32": 1.1754943508222875e-38, "float16": 6.103515625e-05,
+        "bfloat16": 1.1754943508222875e-38}
+# (30) every float dtype the integrator accepts after .to(dtype): machine epsilons (= the threshold so3 Exp uses)
+EPSX = {**common.EPS, "float16": 2.0 ** -10, "bfloat16": 2.0 ** -7}
 STD_G = 9.810070037841797      # float32(9.81007)
 # (26) the sign of the gravity constant is a convention (z-up / z-down worlds), its size a choice of planet / units
 GRAVITIES = [0.0, STD_G, STD_G, STD_G, STD_G, -STD_G, -STD_G, -STD_G, 1.62, -3.71, 274.0, -274.0, 1e4, -1e4, 1e-6, -1e-6, 10.0, -10.0]
@@ -83,7 +86,7 @@ def pp():
 
 
 def tdt(name):
-    return {"float64": torch.float64, "float32": torch.float32}[name]
+    return {"float64": torch.float64, "float32": torch.float32, "float16": torch.float16, "bfloat16": torch.bfloat16}[name]
 
 
 def f32(x: float) -> float:
@@ -131,6 +134,8 @@ def gen_theta(r: random.Random, mode: str, eps: float) -> float:
         if mode == "pi_exact":
             ds = ds + [0.0, 0.0]
         return base * (1 + r.choice([-1, 1]) * r.choice(ds))
+    if mode == "near_id":   # (36) rotation per step nearly the identity: quaternion within 1e-8 .. 1e-5 of (0,0,0,1)
+        return r.choice([3e-8, 1e-7, 1e-6, 1e-5, 4e-5])
     if mode == "quarter":   # (20) exact quarter / half / full turns per step (|v| = |w|, w = 0, v = 0 up to the last bit)
         return r.choice([0.5, 1.0, 1.0, 1.5, 2.0]) * math.pi
     if mode == "quarter_nopi":   # anisotropic gyro covariance: J C J^T depends on the sign Log picks at exactly a half turn
@@ -153,6 +158,8 @@ def gen_accmag(r: random.Random, mode: str) -> float:
         return r.choice([1e5, 1e6])
     if mode == "tiny":
         return r.choice([1e-30, 1e-20, 1e-12])
+    if mode == "near_grav":  # (36) |acc| within 1e-7 .. 1e-5 (relative) of standard gravity: a nearly stationary sensor
+        return STD_G * (1 + r.choice([-1, 1]) * r.choice([1e-7, 1e-6, 1e-5]))
     return r.choice([0.0, 1e-3, 0.1, 1.0, 9.81, 9.81, 30.0, 100.0])   # mix
 
 
@@ -164,7 +171,7 @@ def build_data(case) -> dict:
     """all tensors of a case, deterministically from case['data_seed'] / case['ctor_seed'] (python PRNG only)"""
     r = random.Random(case["data_seed"])
     dtn = case["dtype"]
-    dtype, eps = tdt(dtn), common.EPS[dtn]
+    dtype, eps = tdt(dtn), EPSX[dtn]
     B, F = case["B"], sum(case["chunks"])
     dts, gy, ac, ro, gc, av = [], [], [], [], [], []
     dt_const = r.choice(DT_LADDER)
@@ -179,6 +186,8 @@ def build_data(case) -> dict:
             m = case["dt_mode"]
             if m == "signed" and case["prop_cov"]:
                 m = "vary"                  # the covariance divides by dt: dt <= 0 only without covariance propagation
+            if case.get("dt_int"):
+                m = "int"
             if m == "const":
                 d = dt_const
             elif m == "ladder":
@@ -187,6 +196,10 @@ def build_data(case) -> dict:
                 d = r.choice(DT_EXTREME)
             elif m == "signed":
                 d = r.choice(DT_SIGNED)
+            elif m == "int":
+                d = float(r.choice([1, 1, 2, 3]))
+            elif m == "near_const":      # (36) time steps equal up to 1e-7 .. 1e-5 relative: between round-off and an allclose()
+                d = dt_const * (1 + r.choice([-1, 1]) * r.choice([1e-7, 1e-6, 3e-6, 1e-5]))
             else:
                 d = 10 ** r.uniform(-4, 0)
             dts.append(d)
@@ -201,6 +214,8 @@ def build_data(case) -> dict:
             gy.append([(th / d if d != 0 else th) * x for x in dirv])
             am = gen_accmag(r, amode)
             dira = common.rand_dir(r, 3)
+            if amode == "near_grav":
+                dira = [r.choice([0.0, 1e-7, -1e-6]), r.choice([0.0, 1e-7]), 1.0]
             ac.append([am * x for x in dira])
             ro.append(unit_quat(r))
             gb, ab = 10 ** r.uniform(-8, -4), 10 ** r.uniform(-5, -2)
@@ -255,6 +270,9 @@ def build_data(case) -> dict:
         e = {"pos": torch.tensor([[r.gauss(0, 2) for _ in range(3)] for _ in range(B)], dtype=torch.float64).to(dtype),
              "vel": torch.tensor([[r.gauss(0, 2) for _ in range(3)] for _ in range(B)], dtype=torch.float64).to(dtype),
              "rot": torch.tensor([unit_quat(r) for _ in range(B)], dtype=torch.float64).to(dtype)}
+        if case.get("alias_init"):       # (31) the init_state tensors ARE views of this call's own inputs
+            s0 = sum(case["chunks"][:ci])
+            e["pos"], e["vel"], e["rot"] = D["acc"][:, s0].clone(), D["gyro"][:, s0].clone(), D["rot"][:, s0].clone()
         if "covnone" in kind:
             e["cov"] = None                       # the key is present with value None
         elif "cov" in kind:
@@ -316,6 +334,8 @@ def make_module(case, D, keep=None):
     """the integrator of a case; `keep` collects the tensors handed to the constructor (the caller still owns them)"""
     P = pp()
     dtype = tdt(case["dtype"])
+    if case.get("bare"):                 # (29) EVERY optional argument omitted (not passed, not None); no .to(): float32
+        return P.module.IMUPreintegrator()
     g = case["gravity"]
     if case.get("gravity_int") and float(g).is_integer():
         g = int(g)
@@ -401,6 +421,9 @@ def call_args(case, D, ci, s, e, rank=None, bufs=None):
             return x[0, s:e]
         return x[0, s]
     dt_ = lay_out(cut(D["dt"]), layout, "dt", bufs, guards)
+    if case.get("dt_int"):               # (30) integer time steps (legal without covariance propagation): values are whole numbers
+        dt_ = dt_.to(torch.int32)
+        guards.append(dt_)
     gy_ = lay_out(cut(D["gyro"]), layout, "gyro", bufs, guards)
     ac_ = gy_ if layout == "alias" else lay_out(cut(D["acc"]), layout, "acc", bufs, guards)
     args = [dt_, gy_, ac_]
@@ -418,7 +441,9 @@ def call_args(case, D, ci, s, e, rank=None, bufs=None):
     xi = D["xi"][ci]
     if xi is not None:
         st = {"pos": xi["pos"][:, None].clone(), "vel": xi["vel"][:, None].clone(), "rot": P.SO3(xi["rot"][:, None].clone())}
-        if case["B"] == 1 and case.get("init_flat"):      # documented for one item: plain (3,), (4,) tensors
+        if case.get("alias_init") and rank == 3 and bufs is None:
+            st = {"pos": ac_[:, :1], "vel": gy_[:, :1], "rot": P.SO3(raw_storage(kw["rot"])[:, :1]) if "rot" in kw else st["rot"]}
+        elif case["B"] == 1 and case.get("init_flat"):      # documented for one item: plain (3,), (4,) tensors
             st = {"pos": xi["pos"][0].clone(), "vel": xi["vel"][0].clone(), "rot": P.SO3(xi["rot"][0].clone())}
         if "cov" in xi:
             st["cov"] = None if xi["cov"] is None else xi["cov"].clone()
@@ -684,7 +709,7 @@ def wl(t) -> str:
 
 def model_line_resolved(case, D, b, mode, left):
     """`imu.hist`: arguments already resolved by the harness (used for the specification mode 1)"""
-    eps = common.EPS[case["dtype"]]
+    eps = EPSX[case["dtype"]]
     nst = D["p0"].shape[0]
     bi = b if nst > 1 else 0
     toks = ["imu.hist", str(mode), to_wire(eps), to_wire(case["gravity"]), "1" if case["reset"] else "0",
@@ -726,7 +751,7 @@ def model_line(case, D, b, mode, left):
     mode 1 (documented recursions): `imu.hist` with resolved arguments."""
     if mode != 0:
         return model_line_resolved(case, D, b, mode, left)
-    eps = common.EPS[case["dtype"]]
+    eps = EPSX[case["dtype"]]
     nst = D["p0"].shape[0]
     bi = b if nst > 1 else 0
     toks = ["imu.hist2", to_wire(eps), to_wire(case["gravity"]), "1" if case["reset"] else "0",
@@ -855,7 +880,7 @@ class Scale:
 
 def tolerances(case, D, b, starts):
     """per call lists of (tol_rot, tol_vel, tol_pos) for item b; `starts[ci]` = (p0, v0) the call starts from (model)"""
-    eps = common.EPS[case["dtype"]]
+    eps = EPSX[case["dtype"]]
     sc = Scale(case["gravity"])
     out, s = [], 0
     for ci, n in enumerate(case["chunks"]):
@@ -876,7 +901,7 @@ def tolerances(case, D, b, starts):
 
 
 def cov_tol(case, nframes):
-    return 8 * K_ALG * common.EPS[case["dtype"]] * (nframes + 2)
+    return 8 * K_ALG * EPSX[case["dtype"]] * (nframes + 2)
 
 
 def cov_err(got, want):
@@ -913,7 +938,7 @@ def cmp_streams(case, D, b, impl_calls, model_calls, starts, what):
                 ce = cov_err(ir["cov"][b], mc)
                 # so3 Jr evaluates (1-cos t)/t^2 with cancellation (C05's allowance; error <= sqrt(eps), amplified by the
                 # anisotropy sqrt(max/min) <= 3.2 of the measurement covariances in this metric): 16*sqrt(eps) on top of the algebraic part
-                ct = 8 * float(tr.max()) + 16 * math.sqrt(common.EPS[case['dtype']])
+                ct = 8 * float(tr.max()) + 16 * math.sqrt(EPSX[case['dtype']])
                 if not ce <= ct:
                     probs.append(("cov", f"{what}: call {ci} item {b}: covariance relative error {ce:.3e} > {ct:.3e}"))
         elif ir["cov"] is not None:
@@ -1087,7 +1112,7 @@ def oracle_items(ctx, case, D, impl_calls):
     """item-wise = batched: every item of the batched call equals the same call on that item alone"""
     if case["B"] < 2 or not case.get("itemwise"):
         return True
-    eps = common.EPS[case["dtype"]]
+    eps = EPSX[case["dtype"]]
     ok = True
     for b in range(case["B"]):
         cb, Db = item_data(case, D, b)
@@ -1209,7 +1234,7 @@ def run_interleave(ctx: Ctx, group):
 def oracle_default_dtype(ctx, case, D, impl_calls):
     """(25) process-wide default dtype: constructing and calling under torch.set_default_dtype(the OTHER dtype) must give
     the same values and the same metadata (dtype of every returned tensor, LieTensor type)"""
-    if not case.get("dtype_probe"):
+    if not case.get("dtype_probe") or case.get("bare") or case["dtype"] not in ("float32", "float64"):
         return True
     old = torch.get_default_dtype()
     other = torch.float64 if case["dtype"] == "float32" else torch.float32
@@ -1237,6 +1262,156 @@ def oracle_default_dtype(ctx, case, D, impl_calls):
                  f"default-dtype: under torch.set_default_dtype({other}) the values differ in {diff}")
         return False
     return True
+
+
+def other_operations():
+    """(32) every other public operation family of the library on DEGENERATE shapes (single item, all-1 batches), forward and
+    backward, both float dtypes — anything that fills a module-level constant in place does it here"""
+    P = pp()
+    for dtype in (torch.float64, torch.float32):
+        for shape in ((), (1,), (1, 1)):
+            for mk in (P.randn_SO3, P.randn_SE3, P.randn_RxSO3, P.randn_Sim3):
+                X = mk(*shape, dtype=dtype)
+                x = X.Log()
+                p3 = torch.ones(shape + (3,), dtype=dtype, requires_grad=True)
+                p4 = torch.ones(shape + (4,), dtype=dtype, requires_grad=True)
+                Xg = X.clone().requires_grad_()
+                for f in (lambda: X.matrix(), lambda: X.Inv(), lambda: X @ X, lambda: X.Adj(x), lambda: X.AdjT(x),
+                          lambda: x.Exp().matrix(), lambda: x.Jr() if hasattr(x, "Jr") else None, lambda: X.rotation().matrix(),
+                          lambda: (Xg.Act(p3)).sum().backward(), lambda: (Xg.Act(p4)).sum().backward(),
+                          lambda: (Xg @ X).Log().sum().backward(), lambda: Xg.Inv().Log().sum().backward(),
+                          lambda: Xg.Adj(x).sum().backward(), lambda: P.cumprod(X.unsqueeze(0), 0), lambda: X.Jinvp(x)):
+                    try:
+                        f()
+                    except Exception:
+                        pass        # not every operation exists for every type: irrelevant here
+
+
+def run_poison(ctx: Ctx):
+    """(32) two IDENTICAL integrator histories with every other operation of the library (degenerate shapes, forward and
+    backward) in between must agree bit for bit, and both with a degenerate integrator call (B = F = 1) in between"""
+    rng = random.Random(20260926_32)
+    for k in range(3):
+        case = base_case(rng, "poison", [[3, 2], [1], [4]][k], B=[2, 1, 3][k], dtype=["float64", "float32", "float64"][k],
+                         gyro_mode="moderate", acc_mode="unit", gravity=STD_G, layout="contig",
+                         known_rot=[k == 1] * len([[3, 2], [1], [4]][k]), dt_mode="vary", reset=False, prop_cov=True,
+                         cov_mode="vec", subclass=False, positional=False)
+        ctx.note_case(("poison", k), True)
+        ctx.count("poison")
+        D = build_data(case)
+        try:
+            first = run_impl(case, D)
+            other_operations()
+            tiny = base_case(rng, "poison", [1], B=1, dtype=case["dtype"], gyro_mode="large", acc_mode="big", gravity=-STD_G,
+                             layout="contig", known_rot=[True], call_cov=[True], subclass=False, positional=False, dt_mode="const",
+                             reset=False, prop_cov=True)
+            run_impl(tiny, build_data(tiny))
+            second = run_impl(case, D)
+            diff = same_calls(first, second)
+            if diff is not None:
+                raise Misbehaviour(f"poison: the same history returns different values in {diff} after other library operations on "
+                                   f"single items / a B=F=1 integrator call ran in between: a module-level constant was overwritten")
+        except Misbehaviour as e:
+            ctx.fail({**strip(case), "oracle": str(e).split(":")[0]}, str(e))
+        except common.InfraError:
+            raise
+        except Exception as e:
+            ctx.fail({**strip(case), "oracle": "raises"}, f"raises: poison probe raised {type(e).__name__}: {str(e)[:160]}")
+
+
+def run_toggle(ctx: Ctx):
+    """(33) public attributes changed by the user between calls: `reset` / `prop_cov` are read at every call — after
+    `m.reset = True` the carried state is used but no longer advanced"""
+    rng = random.Random(20260926_33)
+    for k in range(3):
+        case = base_case(rng, "toggle", [2, 3], B=1 + k, dtype=["float64", "float32", "float64"][k], gyro_mode="moderate",
+                         acc_mode="unit", gravity=[STD_G, -STD_G, 0.0][k], layout="contig", known_rot=[k == 2] * 2, subclass=False,
+                         positional=False, reset=False, prop_cov=True, dt_mode="vary")
+        ctx.note_case(("toggle", k), True)
+        ctx.count("toggle")
+        D = build_data(case)
+        try:
+            ref = run_impl(case, D)                         # reset=False all along
+            m = make_module(case, D)
+            a1, k1, _ = call_args(case, D, 0, 0, 2)
+            m(*a1, **k1)
+            m.reset = True                                   # the user switches to "keep the state"
+            outs = []
+            for _ in range(2):
+                a2, k2, _ = call_args(case, D, 1, 2, 5)
+                outs.append(record(m(*a2, **k2)))
+            for j, o in enumerate(outs):
+                diff = same_calls([ref[1]], [o])
+                if diff is not None:
+                    raise Misbehaviour(f"toggle: after `m.reset = True` call {j} on the carried state differs from the reset=False history "
+                                       f"in {diff}: the attribute is not read at call time / the state advanced although reset=True")
+        except Misbehaviour as e:
+            ctx.fail({**strip(case), "oracle": str(e).split(":")[0]}, str(e))
+        except common.InfraError:
+            raise
+        except Exception as e:
+            ctx.fail({**strip(case), "oracle": "raises"}, f"raises: toggle probe raised {type(e).__name__}: {str(e)[:160]}")
+
+
+def bulk_data(case):
+    """(34) data of a very large batch, vectorised (torch generator seeded from the case: deterministic, replayable)"""
+    gen = torch.Generator().manual_seed(case["data_seed"])
+    dtype = tdt(case["dtype"])
+    B, F = case["B"], sum(case["chunks"])
+    r = lambda *sh: torch.rand(*sh, generator=gen, dtype=torch.float64)
+    n = lambda *sh: torch.randn(*sh, generator=gen, dtype=torch.float64)
+    D = {"dt": (10 ** (-4 + 4 * r(B, F, 1))).to(dtype), "gyro": (n(B, F, 3) * 0.7).to(dtype), "acc": (n(B, F, 3) * 3).to(dtype),
+         "gcov": (1e-6 * (1 + r(B, F, 3))).to(dtype), "acov": (1e-3 * (1 + r(B, F, 3))).to(dtype)}
+    q = n(B, F, 4)
+    D["rot"] = (q / q.norm(dim=-1, keepdim=True)).to(dtype)
+    q0 = n(B, 4)
+    D["R0"] = (q0 / q0.norm(dim=-1, keepdim=True)).to(dtype)
+    D["p0"], D["v0"] = n(B, 3).to(dtype), n(B, 3).to(dtype)
+    D["mg"], D["ma"] = [f32((3.2e-3) ** 2)] * 3, [f32((8e-2) ** 2)] * 3
+    D["xi"] = [None] * len(case["chunks"])
+    return D
+
+
+def run_bulk(ctx: Ctx):
+    """(34) sizes beyond the largest block: one batch above 2^17 in quick (2^17+1), 2^18+1, 2^18+37, 2^20+1 in thorough; the LAST
+    `B % 2^k` items for several k: batch split at the block boundaries bit for bit, single items there, the model on the last item"""
+    rng = random.Random(20260926_34)
+    left = model_left(ctx)
+    lines, metas = [], []
+    for B in ([131073] if ctx.quick else [131073, 262145, 262181, 1048577]):
+        case = base_case(rng, "bulk", [1], B=B, dtype="float32" if B > 300000 else rng.choice(["float64", "float32"]), gravity=-STD_G,
+                         layout="contig", prop_cov=False, reset=True, known_rot=[B % 2 == 0], call_cov=[False], init_mode="per_item",
+                         positional=False, subclass=False, cov_mode="default", gyro_mode="moderate", acc_mode="unit", dt_mode="vary")
+        ctx.note_case(("bulk", B, case["dtype"]), True)
+        ctx.count("bulk")
+        D = bulk_data(case)
+        try:
+            full = run_impl(case, D)
+            if not check_types(ctx, case, full):
+                continue
+            cuts = sorted({B - B % (1 << k) for k in (10, 14, 16, 17, 18) if 0 < B % (1 << k) < B} | {B - 1})
+            for a in cuts[:3] + cuts[-1:]:
+                outs2 = []
+                for lo, hi in ((0, a), (a, B)):
+                    c2 = dict(case, B=hi - lo)
+                    D2 = {kk: (v[lo:hi] if isinstance(v, torch.Tensor) and v.shape[0] == B else v) for kk, v in D.items()}
+                    outs2.append(run_impl(c2, D2))
+                for key in ("rot", "vel", "pos"):
+                    cat = torch.cat([outs2[0][0][key], outs2[1][0][key]], dim=0)
+                    if not torch.equal(cat, full[0][key]):
+                        i = int((cat != full[0][key]).flatten(1).any(dim=1).nonzero()[0])
+                        raise Misbehaviour(f"split: B={B}: forward(x) differs from cat(forward(x[:{a}]), forward(x[{a}:])) in '{key}' at item {i} "
+                                           f"(the last {B - a} items)")
+            for b in (0, B - 1):
+                lines.append(model_line(case, D, b, 0, left))
+                metas.append((case, D, b, full))
+        except Misbehaviour as e:
+            ctx.fail({**strip(case), "oracle": str(e).split(":")[0]}, str(e))
+        except common.InfraError:
+            raise
+        except Exception as e:
+            ctx.fail({**strip(case), "oracle": "raises"}, f"raises: bulk case B={B} raised {type(e).__name__}: {str(e)[:160]}")
+    compare_model(ctx, par_driver(ctx, lines), metas)
 
 
 def run_mode_order(ctx: Ctx):
@@ -1291,7 +1466,7 @@ def run_steps(ctx: Ctx, cases):
         if len(case["chunks"]) != 1 or case["rank"] != 3:
             continue
         D = build_data(case)
-        eps = common.EPS[case["dtype"]]
+        eps = EPSX[case["dtype"]]
         try:
             impl = run_impl(case, D)
         except Exception:
@@ -1311,7 +1486,7 @@ def run_steps(ctx: Ctx, cases):
     bad = {}
     for rep, (case, b, f, dq, th) in zip(reps, metas):
         want = torch.tensor(parse_floats(rep), dtype=torch.float64)
-        eps = common.EPS[case["dtype"]]
+        eps = EPSX[case["dtype"]]
         # the input gyro*dt is rounded once in the dtype before Exp: 2 eps theta on top of the 64 eps of the composition
         tol = K_ALG * eps * (1 + th)
         e = float(qdist(dq, want))
@@ -1531,7 +1706,7 @@ def run_integrate(ctx: Ctx, cases):
     lines, metas = [], []
     for case in cases:
         D = build_data(case)
-        eps = common.EPS[case["dtype"]]
+        eps = EPSX[case["dtype"]]
         B, F = case["B"], sum(case["chunks"])
         m = make_module(case, D)
         known = case["known_rot"][0]
@@ -1564,7 +1739,7 @@ def run_integrate(ctx: Ctx, cases):
             metas.append((c1, D, b, got))
     reps = par_driver(ctx, lines)
     for rep, (c1, D, b, got) in zip(reps, metas):
-        eps = common.EPS[c1["dtype"]]
+        eps = EPSX[c1["dtype"]]
         F = sum(c1["chunks"])
         vals = torch.tensor(parse_floats(rep), dtype=torch.float64).reshape(F, 14)
         g = abs(c1["gravity"])
@@ -1667,8 +1842,8 @@ def run_reuse_history(ctx: Ctx, subs, record_case=True):
 
 # ----------------------------------------------------------------------------- case generation
 
-GYRO_MODES = ["mix", "mix", "mix", "moderate", "moderate", "moderate", "small", "small", "taylor", "taylor", "large", "large", "zero", "zero", "huge", "pi", "quarter"]
-ACC_MODES = ["mix", "mix", "mix", "unit", "unit", "grav", "grav", "big", "big", "zero", "zero", "huge", "tiny"]
+GYRO_MODES = ["mix", "mix", "mix", "moderate", "moderate", "moderate", "small", "small", "taylor", "taylor", "large", "large", "zero", "zero", "huge", "pi", "quarter", "near_id"]
+ACC_MODES = ["mix", "mix", "mix", "unit", "unit", "grav", "grav", "big", "big", "zero", "zero", "huge", "tiny", "near_grav"]
 
 
 def base_case(rng: random.Random, stream: str, chunks, B=None, rank=3, dtype=None, **over):
@@ -1685,7 +1860,7 @@ def base_case(rng: random.Random, stream: str, chunks, B=None, rank=3, dtype=Non
         "known_rot": [kr] * n, "call_cov": [False] * n, "explicit_init": [None] * n,
         "init_mode": rng.choice(["default", "shared", "shared", "per_item"]),
         "gyro_mode": rng.choice(GYRO_MODES), "acc_mode": rng.choice(ACC_MODES),
-        "dt_mode": rng.choice(["const", "const", "const", "ladder", "ladder", "ladder", "vary", "vary", "vary", "vary", "extreme", "signed"]),
+        "dt_mode": rng.choice(["const", "const", "const", "ladder", "ladder", "ladder", "vary", "vary", "vary", "vary", "extreme", "signed", "near_const"]),
         "cov_mode": rng.choice(["default", "default", "float", "float", "vec", "vec", "gfloat_avec", "gvec_afloat", "gonly", "aonly"]),
         "positional": rng.random() < 0.25, "ctor_positional": rng.random() < 0.25, "gravity_int": False,
         "init_flat": rng.random() < 0.5, "subclass": rng.random() < 0.15,
@@ -1852,6 +2027,31 @@ def corner_corpus():
     # (21) user subclasses of the integrator and of LieTensor
     add([2, 3], B=2, subclass=True, known_rot=[True], gyro_mode="moderate", acc_mode="unit", gravity=STD_G)
     add([4], B=1, subclass=True, known_rot=[False], gyro_mode="moderate", acc_mode="unit", gravity=-STD_G, explicit_init=["cov+rij"])
+    # ---- round-5 classes
+    # (29) objects built with every optional argument omitted, against the DOCUMENTED defaults (model), also chunked
+    for parts in ([3], [2, 2], [1, 1, 3]):
+        add(parts, B=len(parts), dtype="float32", bare=True, init_mode="default", cov_mode="default", gravity=STD_G, gravity_int=False,
+            reset=False, prop_cov=True, ctor_positional=False, subclass=False, known_rot=[len(parts) == 2], gyro_mode="moderate",
+            acc_mode="grav")
+    # (30) every float dtype accepted after .to(dtype); integer time steps
+    for dtp in ("float16", "bfloat16"):
+        for kr in (False, True):
+            add([3], B=2, dtype=dtp, prop_cov=False, reset=True, known_rot=[kr], gyro_mode="moderate", acc_mode="unit", gravity=STD_G,
+                dt_mode="ladder", pos_mag=1.0, vel_mag=1.0, cov_mode="default", init_mode="shared")
+    add([4], B=2, dt_int=True, prop_cov=False, reset=True, gyro_mode="moderate", acc_mode="unit", gravity=-STD_G, dtype="float32")
+    add([2, 2], B=1, dt_int=True, prop_cov=False, reset=True, gyro_mode="large", acc_mode="grav", gravity=STD_G, dtype="float64",
+        known_rot=[True])
+    # (31) init_state tensors that are views of the call's own inputs
+    add([3, 2], B=2, alias_init=True, explicit_init=["basic", "cov+rij"], known_rot=[True], reset=True, gyro_mode="moderate",
+        acc_mode="unit", gravity=STD_G)
+    add([2, 2], B=1, alias_init=True, explicit_init=["cov", "basic"], known_rot=[False], reset=False, layout="alias",
+        gyro_mode="moderate", acc_mode="unit", gravity=-STD_G, init_flat=False)
+    # (36) bands between round-off and a "helpful" tolerance: nearly equal dt, nearly identity rotations, nearly stationary
+    for dtp in ("float64", "float32"):
+        add([5], B=1, dt_mode="near_const", gyro_mode="moderate", acc_mode="unit", gravity=STD_G, dtype=dtp, known_rot=[False])
+        add([2, 3], B=2, dt_mode="const", gyro_mode="near_id", acc_mode="near_grav", gravity=STD_G, dtype=dtp, known_rot=[False],
+            init_mode="default")
+        add([4], B=1, dt_mode="near_const", gyro_mode="near_id", acc_mode="near_grav", gravity=STD_G, dtype=dtp, known_rot=[True])
     # (25) process-wide default dtype
     for c in cs[2::7]:
         if sum(c["chunks"]) <= 40:
@@ -1870,7 +2070,10 @@ def corpus_interleave():
     rng = random.Random(20260926_16)
     mk = lambda parts, **kw: base_case(rng, "interleave", parts, **{"gyro_mode": "moderate", "acc_mode": "unit", "gravity": STD_G,
                                                                     "layout": "contig", **kw})
-    return [[mk([2, 1, 3], B=2, dtype="float64"), mk([1, 2, 2], B=1, dtype="float32"), mk([3, 3], B=3, dtype="float64", reset=True)],
+    bare = lambda parts, B: mk(parts, B=B, dtype="float32", bare=True, init_mode="default", cov_mode="default", gravity=STD_G,
+                               gravity_int=False, reset=False, prop_cov=True, positional=False, ctor_positional=False, subclass=False)
+    return [[bare([2, 1, 2], 1), bare([1, 3], 2), bare([2, 2], 1)],          # (29) three objects built with NO argument at all
+            [mk([2, 1, 3], B=2, dtype="float64"), mk([1, 2, 2], B=1, dtype="float32"), mk([3, 3], B=3, dtype="float64", reset=True)],
             [mk([1, 1, 1, 1], B=1, dtype="float32", init_mode="default"), mk([2, 2], B=1, dtype="float32", init_mode="default")],
             [mk([2, 3], B=2, dtype="float64", init_mode="default"), mk([4, 1], B=4, dtype="float64", init_mode="default", gravity=0.0)]]
 
@@ -1932,6 +2135,7 @@ def gen_cases(ctx: Ctx):
         c["call_cov"] = [(rng.choice([True, "g", "a", "b1"]) if c["prop_cov"] and rng.random() < 0.35 else False) for _ in range(n)]
         kinds = [None, None, None, "basic", "cov", "cov+rij", "cov+rnone", "rij", "rnone", "covnone", "covnone+rij"]
         c["explicit_init"] = [rng.choice(kinds) for _ in range(n)]
+        c["alias_init"] = rng.random() < 0.2
         cases.append(c)
     # --- (11) error paths: a request that raises between successful calls of a carried history
     for c in cases:
@@ -1996,6 +2200,9 @@ def run(ctx: Ctx):
     run_mode_order(ctx)          # (23) must see sizes that are fresh in this process: first of all
     run_shapes(ctx)
     run_large(ctx)               # (19)
+    run_bulk(ctx)                # (34)
+    run_poison(ctx)              # (32)
+    run_toggle(ctx)              # (33)
     # deterministic corner corpus first (same for every seed), then the seeded random cases
     corpus = corner_corpus()
     reuse = corpus_reuse() + [reuse_history(rng, rng.randint(3, 6), rng.choice(["reset", "reset", "fullinit"]))
@@ -2077,6 +2284,12 @@ def replay(ctx: Ctx, case) -> bool:
         run_large(ctx)
     elif c.get("stream") == "modeorder":
         run_mode_order(ctx)
+    elif c.get("stream") == "bulk":
+        run_bulk(ctx)
+    elif c.get("stream") == "poison":
+        run_poison(ctx)
+    elif c.get("stream") == "toggle":
+        run_toggle(ctx)
     elif c.get("kind") == "integrate":
         c["kind"] = "hist"
         run_integrate(ctx, [c])
